@@ -1,8 +1,10 @@
 import TinsModel.Tcp.DataTracker
+import TinsModel.Ack.Model
 /-
   Code-shaped model of `Tins::TCPIP::StreamIdentifier`, `Flow`, `Stream` and `StreamFollower`
   (src/tcp_ip/{stream_identifier,flow,stream,stream_follower}.cpp), statement for statement where
-  property C07 depends on it.  The per-flow reassembly is the C06 model (`Tins.DT`).
+  property C07 depends on it.  The per-flow reassembly is the C06 model (`Tins.DT`), the per-flow ACK tracker is the
+  C19 model (`Tins.Ack`).
 
   Representation choices (all validated by the correspondence harness harness/c07_follower.cpp):
   * an address is the big-endian numeric value of its bytes (IPv4 `< 2^32`, IPv6 `< 2^128`); the 16-byte
@@ -15,8 +17,13 @@ import TinsModel.Tcp.DataTracker
   * the model is generic in the key function (`keyOf : Pkt → κ`) so that the reference connection table of the
     spec is the same machine keyed by (family, unordered endpoint pair); the code is `keyOf = identOf`;
   * callbacks are an event trace; the harness installs every callback, so "callback set" tests are `true`;
-  * ACK tracking is off (`Flow::flags_.ack_tracking = 0`, the default): `acked_intervals()` stays empty and
-    the SACKED_SEGMENTS limit can never fire; `ignore_data_packets` is never set; recovery mode is not enabled.
+  * what the application does inside the new-stream callback is part of the configuration (`Cfg`): switch auto-cleanup
+    off, `Flow::enable_ack_tracking` per flow, `AckTracker::use_sack` (for streams attached mid-way, whose trackers
+    are default-constructed with SACK off), `Stream::ignore_client_data` / `ignore_server_data`,
+    `Stream::enable_recovery_mode`;
+  * `DEFAULT_MAX_SACKED_INTERVALS` is a parameter (`Cfg.maxSacked`; the check reads the literal from the source);
+  * a SACK option whose data is not a whole number of 32-bit edges is skipped by the flow (KF-C07-4, after `fix: a SACK
+    option that cannot be decoded made Flow::process_packet throw malformed_option ...`).
 -/
 namespace Tins.SF
 open Tins Tins.DT
@@ -35,6 +42,7 @@ structure Pkt where
   mss : Option Nat            -- `search_option(TCP::MSS)`
   sackOk : Bool               -- `has_sack_permitted()`
   ts : Nat
+  sack : Ack.SackOpt := .absent   -- `search_option(TCP::SACK)` and its `to<sack_type>()` conversion
 deriving Repr
 
 /-- `tcp.has_flags(F)` for the single-bit flags -/
@@ -89,19 +97,27 @@ structure Flow where
   mss : Int
   sackPermitted : Bool
   tr : Tracker
+  ackTracking : Bool := false               -- `flags_.ack_tracking`
+  ignoreData : Bool := false                -- `flags_.ignore_data_packets`
+  ackTr : Ack.Tracker := Ack.Tracker.default   -- `ack_tracker_` (a member whether or not tracking is enabled)
+  /-- recovery mode: `recovery_sequence_number_end` of the `Stream::*_recovery_mode_handler` bound to this direction's
+      out-of-order callback (`none`: no such handler installed, or it has removed itself) -/
+  recEnd : Option Nat := none
 
 /-- `Flow::Flow(dest_address, dest_port, sequence_number)` + `initialize()` -/
 def Flow.init (v6 : Bool) (dst dport seq : Nat) : Flow :=
   { v6 := v6, dst := dst, dport := dport, state := .unknown, mss := -1, sackPermitted := false,
     tr := Tracker.init seq }
 
-/-- `Flow::update_state` (after `fix: RST takes precedence over FIN in Flow::update_state`) -/
+/-- `Flow::update_state` (after `fix: RST takes precedence over FIN in Flow::update_state`);
+    `ack_tracker_ = AckTracker(tcp.ack_seq())` has `use_sack = true` by default argument -/
 def Flow.updateState (f : Flow) (p : Pkt) : Flow :=
   if p.rst then { f with state := .rstSent }
   else if p.fin then { f with state := .finSent }
-  else if f.state = .synSent ∧ p.ackf then { f with state := .established }
+  else if f.state = .synSent ∧ p.ackf then { f with state := .established, ackTr := Ack.Tracker.init p.ack true }
   else if f.state = .unknown ∧ p.syn then
     { f with state := .synSent,
+             ackTr := Ack.Tracker.init p.ack true,
              tr := { f.tr with seq := wrap32 (p.seq + 1) },
              mss := match p.mss with | some m => (m : Int) | none => f.mss,
              sackPermitted := p.sackOk }
@@ -111,20 +127,66 @@ def Flow.updateState (f : Flow) (p : Pkt) : Flow :=
 def Flow.packetBelongs (f : Flow) (p : Pkt) : Bool :=
   f.v6 == p.v6 && p.dst == f.dst && p.dport == f.dport
 
+/-- `if (flags_.ack_tracking) ack_tracker_.process_packet(*tcp);` — a SACK option that cannot be decoded is skipped
+    (the cumulative ACK of the segment has been processed by then) -/
+def Flow.trackAck (f : Flow) (p : Pkt) : Flow :=
+  if f.ackTracking then { f with ackTr := (Ack.processPacket f.ackTr p.ack p.sack).1 } else f
+
+/-- the part of `Flow::process_packet` that every TCP segment goes through: `update_state`, then the ACK tracker -/
+def Flow.pre (f : Flow) (p : Pkt) : Flow := (f.updateState p).trackAck p
+
+/-- `Stream::client_recovery_mode_handler` / `server_recovery_mode_handler` with `Stream::recovery_mode_handler`, run (after
+    the application's own out-of-order callback) for an out-of-order segment at `seq`: plain `uint32_t` comparisons -/
+def Flow.recover (f : Flow) (seq e : Nat) : Flow :=
+  { f with tr := if seq > f.tr.seq ∧ seq ≤ e then advanceSequence f.tr seq else f.tr,
+           recEnd := if e > seq then some e else none }
+
+/-- the flow after the out-of-order callback of `process_packet`: in recovery mode the handler bound to the direction runs
+    (for an out-of-order segment) and may advance the sequence number before `process_payload` sees the segment -/
+def Flow.afterOoo (f1 : Flow) (p : Pkt) (ooo : Bool) : Flow :=
+  match ooo, f1.recEnd with
+  | true, some e => f1.recover p.dataSeq e
+  | _, _ => f1
+
 /-- `Flow::process_packet`: the new flow, the out-of-order callback arguments (if it fires) and whether the
     data callback fires -/
 def Flow.processPacket (f : Flow) (p : Pkt) : Flow × Option (Nat × Bytes) × Bool :=
-  let f1 := f.updateState p
+  let f1 := f.pre p
+  -- `if (flags_.ignore_data_packets) return;`
+  if f1.ignoreData then (f1, none, false) else
   match p.payload with
   | none => (f1, none, false)
   | some d =>
     let chunkEnd := wrap32 (p.dataSeq + d.length)
     let cur := f1.tr.seq
     let ooo := if seqCompare chunkEnd cur < 0 ∨ seqCompare p.dataSeq cur > 0 then some (p.dataSeq, d) else none
-    let r := processPayload f1.tr p.dataSeq d
-    ({ f1 with tr := r.1 }, ooo, r.2)
+    -- the out-of-order callback runs before `process_payload`
+    let f2 := f1.afterOoo p ooo.isSome
+    let r := processPayload f2.tr p.dataSeq d
+    ({ f2 with tr := r.1 }, ooo, r.2)
 
 /-! ### Stream -/
+
+structure Cfg where
+  attach : Bool              -- `attach_to_flows_`
+  maxChunks : Nat            -- `max_buffered_chunks_`
+  maxBytes : Nat             -- `max_buffered_bytes_`
+  keepAlive : Nat            -- `stream_keep_alive_` (µs)
+  acl : Bool                 -- auto-cleanup of payloads (harness sets it in the new-stream callback)
+  maxSacked : Nat := 1024    -- `DEFAULT_MAX_SACKED_INTERVALS`
+  -- what the new-stream callback does to the stream it is handed:
+  ackC : Bool := false       -- `client_flow().enable_ack_tracking()`
+  ackS : Bool := false       -- `server_flow().enable_ack_tracking()`
+  useSack : Bool := false    -- `ack_tracker().use_sack()` on both flows
+  ignC : Bool := false       -- `ignore_client_data()`
+  ignS : Bool := false       -- `ignore_server_data()`
+  cbSet : Bool := true       -- a new-stream callback is installed (`on_new_connection_`); `false`: see `stepX`
+  recovery : Option Nat := none   -- `enable_recovery_mode(window)` (after the out-of-order callbacks have been installed)
+deriving Repr
+
+/-- the stream as its constructor leaves it: what the new-stream callback would have configured is absent -/
+def Cfg.raw (cfg : Cfg) : Cfg :=
+  { cfg with acl := true, ackC := false, ackS := false, useSack := false, ignC := false, ignS := false, recovery := none }
 
 structure Stream where
   client : Flow
@@ -146,11 +208,17 @@ deriving DecidableEq, Repr
 def Stream.sid (s : Stream) : Sid :=
   ⟨s.server.v6, s.server.dst, s.server.dport, s.client.dst, s.client.dport⟩
 
-/-- `Stream::Stream(packet, ts)` (`extract_client_flow`, `extract_server_flow`) -/
-def Stream.ofPacket (p : Pkt) (acl : Bool) : Stream :=
-  { client := Flow.init p.v6 p.dst p.dport p.dataSeq,
-    server := Flow.init p.v6 p.src p.sport p.ack,
-    createTime := p.ts, lastSeen := p.ts, isPartial := !p.syn, acl := acl }
+/-- what the new-stream callback does to one flow -/
+def Flow.configure (f : Flow) (ack useSack ign : Bool) (rec : Option Nat) : Flow :=
+  { f with ackTracking := ack, ignoreData := ign, ackTr := { f.ackTr with useSack := f.ackTr.useSack || useSack },
+           -- `flow.sequence_number() + recovery_window`
+           recEnd := rec.map (fun w => wrap32 (f.tr.seq + w)) }
+
+/-- `Stream::Stream(packet, ts)` (`extract_client_flow`, `extract_server_flow`) followed by the new-stream callback -/
+def Stream.ofPacket (cfg : Cfg) (p : Pkt) : Stream :=
+  { client := (Flow.init p.v6 p.dst p.dport p.dataSeq).configure cfg.ackC cfg.useSack cfg.ignC cfg.recovery,
+    server := (Flow.init p.v6 p.src p.sport p.ack).configure cfg.ackS cfg.useSack cfg.ignS cfg.recovery,
+    createTime := p.ts, lastSeen := p.ts, isPartial := !p.syn, acl := cfg.acl }
 
 /-- `Stream::is_finished` -/
 def Stream.isFinished (s : Stream) : Bool :=
@@ -160,6 +228,8 @@ def Stream.isFinished (s : Stream) : Bool :=
 def Stream.chunks (s : Stream) : Nat := s.client.tr.buf.length + s.server.tr.buf.length
 /-- `uint32_t total_buffered_bytes = client + server` (wraps) -/
 def Stream.bytes (s : Stream) : Nat := wrap32 (s.client.tr.total + s.server.tr.total)
+/-- `uint32_t count = client.acked_intervals().iterative_size() + server...` (wraps) -/
+def Stream.sacked (s : Stream) : Nat := wrap32 (s.client.ackTr.ivs.length + s.server.ackTr.ivs.length)
 
 /-- callbacks a stream makes while processing one packet -/
 inductive SEv
@@ -201,19 +271,11 @@ inductive Ev (κ : Type)
   | ooo (k : κ) (sid : Sid) (client : Bool) (seq : Nat) (d : Bytes)
   | data (k : κ) (sid : Sid) (client : Bool) (payload : Bytes)
   | closed (k : κ) (sid : Sid)
-  | term (k : κ) (sid : Sid) (r : Reason) (chunks bytes : Nat)
+  | term (k : κ) (sid : Sid) (r : Reason) (chunks bytes sacked : Nat)
 deriving Repr
 
 def Ev.key {κ} : Ev κ → κ
-  | .new k _ _ => k | .ooo k _ _ _ _ => k | .data k _ _ _ => k | .closed k _ => k | .term k _ _ _ _ => k
-
-structure Cfg where
-  attach : Bool              -- `attach_to_flows_`
-  maxChunks : Nat            -- `max_buffered_chunks_`
-  maxBytes : Nat             -- `max_buffered_bytes_`
-  keepAlive : Nat            -- `stream_keep_alive_` (µs)
-  acl : Bool                 -- auto-cleanup of payloads (harness sets it in the new-stream callback)
-deriving Repr
+  | .new k _ _ => k | .ooo k _ _ _ _ => k | .data k _ _ _ => k | .closed k _ => k | .term k _ _ _ _ _ => k
 
 structure Follower (κ : Type) where
   streams : List (κ × Stream)
@@ -248,7 +310,7 @@ def expired (cfg : Cfg) (now : Nat) (e : κ × Stream) : Bool := decide (e.2.las
 def cleanup (cfg : Cfg) (lt : κ → κ → Bool) (F : Follower κ) (now : Nat) : Follower κ × List (Ev κ) :=
   ({ streams := F.streams.filter (fun e => !expired cfg now e), lastCleanup := now },
    (sortEntries lt (F.streams.filter (expired cfg now))).map
-      (fun e => Ev.term e.1 e.2.sid .timeout e.2.chunks e.2.bytes))
+      (fun e => Ev.term e.1 e.2.sid .timeout e.2.chunks e.2.bytes e.2.sacked))
 
 /-- `if (last_cleanup_ + stream_keep_alive_ <= ts) cleanup_streams(ts);` -/
 def maybeCleanup (cfg : Cfg) (lt : κ → κ → Bool) (F : Follower κ) (ts : Nat) : Follower κ × List (Ev κ) :=
@@ -259,20 +321,27 @@ def liftEv (k : κ) (sid : Sid) : SEv → Ev κ
   | .data c pl => .data k sid c pl
   | .closed => .closed k sid
 
-/-- did the limits check of `process_packet` decide to terminate the stream -/
+/-- did the buffering limits of `process_packet` decide to terminate the stream (reason BUFFERED_DATA) -/
 def overLimit (cfg : Cfg) (s : Stream) : Bool := decide (s.chunks > cfg.maxChunks) || decide (s.bytes > cfg.maxBytes)
+
+/-- `if (!terminate_stream) { count = ...; terminate_stream = count > DEFAULT_MAX_SACKED_INTERVALS; reason = SACKED_SEGMENTS; }` -/
+def overSacked (cfg : Cfg) (s : Stream) : Bool := !overLimit cfg s && decide (s.sacked > cfg.maxSacked)
+
+/-- `terminate_stream` -/
+def terminated (cfg : Cfg) (s : Stream) : Bool := overLimit cfg s || overSacked cfg s
 
 /-- the part of `StreamFollower::process_packet` after the stream has been found or created:
     `stream.process_packet`, limits, erase (the sweep is applied by `step`) -/
 def touch (cfg : Cfg) (F : Follower κ) (k : κ) (s : Stream) (p : Pkt) : Follower κ × List (Ev κ) :=
   let r := s.processPacket p
   let s' := r.1
-  let terminate := overLimit cfg s'
   let F1 : Follower κ :=
-    if s'.isFinished || terminate then { F with streams := remove F.streams k }
+    if s'.isFinished || terminated cfg s' then { F with streams := remove F.streams k }
     else { F with streams := store F.streams k s' }
   (F1, r.2.map (liftEv k s'.sid) ++
-       (if terminate then [Ev.term k s'.sid .bufferedData s'.chunks s'.bytes] else []))
+       (if terminated cfg s' then
+          [Ev.term k s'.sid (if overLimit cfg s' then .bufferedData else .sackedSegments) s'.chunks s'.bytes s'.sacked]
+        else []))
 
 /-- forcing both flows to ESTABLISHED when attaching to a running connection -/
 def Stream.established (s : Stream) : Stream :=
@@ -286,7 +355,7 @@ def stepCore (cfg : Cfg) (keyOf : Pkt → κ) (F : Follower κ) (p : Pkt) : Foll
   | none =>
     let isSyn := p.syn && !p.ackf
     if isSyn || (cfg.attach && p.payload.isSome) then
-      let s0 := Stream.ofPacket p cfg.acl
+      let s0 := Stream.ofPacket cfg p
       let s1 := if isSyn then s0 else s0.established
       let r := touch cfg F k s1 p
       (r.1, Ev.new k s0.sid s0.isPartial :: r.2)
@@ -306,11 +375,40 @@ def run (cfg : Cfg) (keyOf : Pkt → κ) (lt : κ → κ → Bool) : Follower κ
     let rest := run cfg keyOf lt r.1 ps
     (rest.1, r.2 :: rest.2)
 
+/-! ### no new-stream callback installed (`throw callback_not_set()`)
+
+  `StreamFollower::process_packet` inserts the new stream, sets up the flow callbacks and then, finding `on_new_connection_`
+  empty, throws `callback_not_set`: the stream stays in `streams_` as constructed (no ESTABLISHED forcing, the packet is not
+  processed, no limits check, no sweep).  Later packets of the connection are processed as usual (`step`), but no stream
+  callback is installed, so only termination callbacks are observable.  `step` / `run` above describe the follower with
+  the callback installed; `stepX` / `runX` add this path (`stepX_of_cbSet`: they coincide when it is installed). -/
+
+/-- would this packet create a stream -/
+def creates (cfg : Cfg) (keyOf : Pkt → κ) (F : Follower κ) (p : Pkt) : Bool :=
+  (find? F.streams (keyOf p)).isNone && ((p.syn && !p.ackf) || (cfg.attach && p.payload.isSome))
+
+/-- `StreamFollower::process_packet(packet, ts)`, with or without a new-stream callback; the flag says whether
+    `callback_not_set` left the call -/
+def stepX (cfg : Cfg) (keyOf : Pkt → κ) (lt : κ → κ → Bool) (F : Follower κ) (p : Pkt) : Follower κ × List (Ev κ) × Bool :=
+  if !cfg.cbSet && creates cfg keyOf F p then
+    ({ F with streams := store F.streams (keyOf p) (Stream.ofPacket cfg.raw p) }, [], true)
+  else
+    let r := step cfg keyOf lt F p
+    (r.1, r.2, false)
+
+def runX (cfg : Cfg) (keyOf : Pkt → κ) (lt : κ → κ → Bool) : Follower κ → List Pkt → Follower κ × List (List (Ev κ) × Bool)
+  | F, [] => (F, [])
+  | F, p :: ps =>
+    let r := stepX cfg keyOf lt F p
+    let rest := runX cfg keyOf lt r.1 ps
+    (rest.1, (r.2.1, r.2.2) :: rest.2)
+
 end generic
 
 /-- the code: `streams_` keyed by `StreamIdentifier` -/
 abbrev Model := Follower Ident
 def Model.step (cfg : Cfg) (F : Model) (p : Pkt) : Model × List (Ev Ident) := Tins.SF.step cfg identOf Ident.lt F p
 def Model.run (cfg : Cfg) (F : Model) (h : List Pkt) : Model × List (List (Ev Ident)) := Tins.SF.run cfg identOf Ident.lt F h
+def Model.stepX (cfg : Cfg) (F : Model) (p : Pkt) : Model × List (Ev Ident) × Bool := Tins.SF.stepX cfg identOf Ident.lt F p
 
 end Tins.SF
